@@ -178,19 +178,46 @@ theorem ViewPX_default {ty : ViewTy} {views : List Nat} {buf : Bytes} (h : ViewP
     (fun _ _ => ⟨decodeView_inline _ [] (by simp), rfl⟩)
   simpa using this
 
-/-- `push_scalar_value` -/
-theorem ViewPX_push {ty : ViewTy} {views : List Nat} {buf value : Bytes} (h : ViewPX ty views buf)
-    (hv : ty = .utf8View → validUtf8 value = true) :
-    ViewPX ty (viewPushValue views buf value).1 (viewPushValue views buf value).2 := by
-  unfold viewPushValue
-  split
-  · rename_i hle
-    have := ViewPX_snoc (extra := []) (d := packInline value) (value := value) (by simpa using h)
+/-- what a successful `push_scalar_value` returns: the value inline, or out of line at the end of the buffer -/
+theorem viewPushValue_cases {views : List Nat} {buf value : Bytes} {r : List Nat × Bytes}
+    (h : viewPushValue views buf value = .ok r) :
+    (r = (views ++ [packInline value], buf) ∧ value.length ≤ 12) ∨
+    (r = (views ++ [packExtern value 0 buf.length], buf ++ value) ∧ 12 < value.length) := by
+  unfold viewPushValue at h
+  split at h
+  · rename_i hle; cases h; exact .inl ⟨rfl, hle⟩
+  · rename_i hgt
+    split at h
+    · cases h
+    · cases h; exact .inr ⟨rfl, by omega⟩
+
+/-- the same for the sequence path (`start_seq` … `end_seq`) -/
+theorem viewSeq_cases {views : List Nat} {buf value : Bytes} {r : List Nat × Bytes}
+    (h : viewSeq views buf value = .ok r) :
+    (r = (views ++ [packInline value], buf) ∧ value.length ≤ 12) ∨
+    (r = (views ++ [packExtern value 0 buf.length], buf ++ value) ∧ 12 < value.length) := by
+  unfold viewSeq at h
+  split at h
+  · cases h
+  · split at h
+    · rename_i hle; cases h; exact .inl ⟨rfl, hle⟩
+    · rename_i hgt
+      split at h
+      · cases h
+      · cases h; exact .inr ⟨rfl, by omega⟩
+
+/-- `push_scalar_value` / `end_seq` -/
+theorem ViewPX_push {ty : ViewTy} {views : List Nat} {buf value : Bytes} {r : List Nat × Bytes} (h : ViewPX ty views buf)
+    (hv : ty = .utf8View → validUtf8 value = true)
+    (hr : (r = (views ++ [packInline value], buf) ∧ value.length ≤ 12) ∨
+      (r = (views ++ [packExtern value 0 buf.length], buf ++ value) ∧ 12 < value.length)) :
+    ViewPX ty r.1 r.2 := by
+  rcases hr with ⟨rfl, hle⟩ | ⟨rfl, hgt⟩
+  · have := ViewPX_snoc (extra := []) (d := packInline value) (value := value) (by simpa using h)
       (decodeView_inline_isOk _ value hle)
       (fun hty _ => ⟨decodeView_inline _ value hle, hv hty⟩)
     simpa using this
-  · rename_i hgt
-    exact ViewPX_snoc h (decodeView_extern_isOk buf value)
+  · exact ViewPX_snoc h (decodeView_extern_isOk buf value)
       (fun hty hsm => ⟨decodeView_extern buf value (by omega) hsm, hv hty⟩)
 
 end SaModel.Lemmas.C03
